@@ -29,7 +29,17 @@ def gen_fd(rng, fd, files):
     d = {"kind": kind, "pos": pos, "flags": flags, "ino": 100 + fd}
     if kind == "file":
         path = pick(rng, ["/tmp/f%d" % fd, "/var/log/x %d.log" % fd,
-                          "/data/a:b%d" % fd, "/tmp/report%d (deleted)" % fd])
+                          "/data/a:b%d" % fd, "/tmp/report%d (deleted)" % fd,
+                          "/tmp/f%d" % fd, "/var/log/x %d.log" % fd,
+                          "/data/a:b%d" % fd, "/tmp/report%d (deleted)" % fd,
+                          # regular files in places better known for other
+                          # kinds of node: POSIX shared memory / semaphores,
+                          # a file below /proc-like or /sys-like names, "/"
+                          "/dev/shm/seg%d" % fd, "/dev/shm/sem.s%d" % fd,
+                          "/dev/mqueue/q%d" % fd, "/run/sock%d" % fd,
+                          "/sys-backup/f%d" % fd, "/procdata/%d" % fd,
+                          "/f%d" % fd, "/tmp/socket:[%d]" % fd,
+                          "/home/u/pipe:[%d]" % fd, "/tmp/anon_inode:x%d" % fd])
         earlier = sorted(p_ for p_, n_ in files.items()
                          if n_.get("t") == "f" and n_.get("data") == "x" and
                          not n_.get("stat_err") and p_.startswith(
